@@ -34,6 +34,18 @@ instance : HasFloor CQ := ⟨fun x => Rat.floor x.re⟩
 instance : HasNormSq CQ := ⟨fun x => ⟨x.re * x.re + x.im * x.im, 0⟩⟩
 end CQ
 
+/-- a rational within relative 2^-100 of `x` with a power-of-two denominator (answers only:
+the exact iterates have denominators of many thousand digits) -/
+def approxQ (x : Rat) : Rat :=
+  if x.num = 0 then 0 else
+    let e : Int := 100 - ((x.num.natAbs.log2 : Int) - (x.den.log2 : Int))
+    if 0 ≤ e then
+      let p : Nat := 2 ^ e.toNat
+      mkRat (Rat.floor (x * (p : Rat))) p
+    else
+      let p : Nat := 2 ^ (-e).toNat
+      ((Rat.floor (x / (p : Rat)) * (p : Int) : Int) : Rat)
+
 /-- how a number type travels through the line protocol -/
 structure Codec (K : Type) where
   dec : Json → Except String K
@@ -41,7 +53,7 @@ structure Codec (K : Type) where
   ofQ : Rat → K
   re : K → Rat
 
-def codecQ : Codec Rat := ⟨getQ, jQ, id, id⟩
+def codecQ : Codec Rat := ⟨getQ, fun x => jQ (approxQ x), id, id⟩
 
 def codecC : Codec CQ :=
   ⟨fun j => do
@@ -49,7 +61,7 @@ def codecC : Codec CQ :=
       match l with
       | [a, b] => pure ⟨a, b⟩
       | _ => throw "expected [re, im]",
-   fun x => Json.arr #[jQ x.re, jQ x.im],
+   fun x => Json.arr #[jQ (approxQ x.re), jQ (approxQ x.im)],
    fun q => ⟨q, 0⟩,
    fun x => x.re⟩
 
@@ -68,7 +80,7 @@ def stepOf (solver : String) (f : Rate K) (dt : K) (maxiter : Nat) (maxerror α 
   | _ => .error s!"unknown solver {solver}"
 
 def segJson (C : Codec K) (t : K) (steps : Nat) (us : List K) (iters : List Nat) : Json :=
-  Json.mkObj [("t", jQ (C.re t)), ("steps", toJson steps), ("state", Json.arr (us.map C.enc).toArray),
+  Json.mkObj [("t", jQ (approxQ (C.re t))), ("steps", toJson steps), ("state", Json.arr (us.map C.enc).toArray),
     ("iters", toJson iters)]
 
 /-- successive stepper calls on the same stepper object -/
@@ -166,10 +178,25 @@ def adaptive (j : Json) : Except String Json := do
     | _ => throw "segment must be [t_start, t_end]"
   pure (Json.mkObj [("segments", Json.arr out)])
 
+/-- step count and returned time of `fixed_stepper` at `Float` (the same IEEE operations as the
+code: `max(1, round((t_end - t_start) / dt))`, `(t_start + (steps-1)*dt) + dt`) -/
+def steps (j : Json) : Except String Json := do
+  let dt ← fldF j "dt"
+  let segs ← getL (getL getF) (← fld j "segments")
+  let mut out : Array Json := #[]
+  for sg in segs do
+    match sg with
+    | [ts, te] =>
+      match fixedStepper (fun (s : Unit) (_ : Float) => some s) dt ts te () with
+      | some (_, t) => out := out.push (Json.arr #[toJson (stepCount dt ts te), jF t])
+      | none => throw "unreachable"
+    | _ => throw "segment must be [t_start, t_end]"
+  pure (Json.arr out)
+
 /-- the extracted constants the driver was built with -/
 def constants (_ : Json) : Except String Json :=
   pure (Json.mkObj (Generated.table.map (fun (n, p, q) => (n, jQ (mkRat p q)))))
 
 def handlers : List (String × Handler) :=
-  [("c06.fixed", fixed), ("c06.adaptive", adaptive), ("c06.constants", constants)]
+  [("c06.fixed", fixed), ("c06.adaptive", adaptive), ("c06.steps", steps), ("c06.constants", constants)]
 end PdeVerif.Drv.C06
